@@ -138,3 +138,30 @@ def roomy_limits(*blobs) -> dict:
     mi, ms, lim = ROOMY_LIMITS[h.digest()[0] % len(ROOMY_LIMITS)]
     return {'stack_max_items': mi, 'stack_max_item_size': ms,
             'callstack_limit': lim}
+
+
+class global_flags:
+    """`functions.flags[k] = v` for the duration of the block: the documented
+    process-wide way to configure the VM (docs.md, "Flags")"""
+
+    def __init__(self, vals) -> None:
+        self.vals = dict(vals or {})
+
+    def __enter__(self):
+        fl = mods()[0].flags
+        self.saved = {k: fl[k] for k in self.vals if k in fl}
+        self.added = [k for k in self.vals if k not in fl]
+        fl.update(self.vals)
+        return self
+
+    def __exit__(self, *a):
+        fl = mods()[0].flags
+        fl.update(self.saved)
+        for k in self.added:
+            fl.pop(k, None)
+        return False
+
+
+# every register export switched off (a verifier that does not want secrets
+# and intermediate values copied into the cache)
+REGISTERS_OFF = {k: False for k in range(1, 10)}
